@@ -8,6 +8,7 @@ independently written specification of the Runge-Kutta / drift-kick formulas.  `
 executed over its control skeleton to show that an unconverged implicit step is never returned.
 """
 from fractions import Fraction
+import os
 import z3
 
 from pyvc import source, solver
@@ -204,6 +205,18 @@ def check_rk_step(ex, reg, src, name, m, sd_keys=()):
                 sol = z3.Solver()
                 sol.add(flag, z3.Not(c["success"]))
                 okflag = sol.check() == z3.unsat
+            # ... and the test `prec < desired_tol` is made between the residual *this* solve reported and the tolerance it was given (not a
+            # value an earlier solve left in solver_dict): among the conjuncts of the flag is the comparison of exactly these two objects
+            judged = False
+            if c is not None and z3.is_expr(flag):
+                for name_, (op_, a_, b_) in ex.cmp_log.items():
+                    this_pair = (op_ in ("Lt", "LtE") and a_ is c["prec"] and b_ is c["kwargs"].get("tol")) or (op_ in ("Gt", "GtE") and b_ is c["prec"] and a_ is c["kwargs"].get("tol"))
+                    if this_pair:
+                        sol = z3.Solver()
+                        sol.add(flag, z3.Not(z3.Bool(name_)))
+                        judged = judged or sol.check() == z3.unsat
+            reg.ground(pre + "success-flag-implies-this-solve-met-its-tolerance" + suffix, "post", "step", judged, backend="z3+dataflow",
+                       detail="solver_dict['newton_iteration_success'] => (prec returned by this call of nonlinear_roots) < (tol handed to it)")
             reg.ground(pre + "success-flag-implies-solver-success" + suffix, "post", "step", okflag, backend="z3",
                        detail="solver_dict['newton_iteration_success'] => nonlinear_roots success (and the prec < desired_tol test)")
     return selfobj
